@@ -69,7 +69,7 @@ Proof. intros. destruct q; try congruence. simpl. apply assoc_remove. Qed.
 Lemma lookup_set : forall f p n q, q <> [] ->
   fs_lookup (fs_set f p n) q = if path_eqb p q then Some n else fs_lookup f q.
 Proof.
-  intros. destruct q; try congruence. unfold fs_set. simpl.
+  intros. destruct q as [|c q]; try congruence. unfold fs_set. simpl.
   destruct (path_eqb p (c :: q)) eqn:E; auto. rewrite assoc_remove, E. auto.
 Qed.
 
